@@ -35,6 +35,10 @@ CHECKS = {
          "Runs sequential Put/Get/Has/Remove/Clear histories over unit and variable sizes (including zero-size and too-large values), limits 1..40 and Remove-then-access bursts against a reference LRU; after every call compares result, Len, Size, Has of every key, the callbacks fired by that call (evictions in exact LRU order) and the accounting hook. Residual F1 violations (>= 5 entries) are excused only via the counterfactual switch. Held = nothing beyond F1 on the listed executions.",
          "Trusts the reference LRU and the hooks cache.VerifCheck / heapq.VerifFixParent.",
          "DESIGN.md §5 C08, §4"),
+ "C09": ("Go race detector over a stress workload without harness synchronisation; offline linearizability checking (porcupine) of recorded client-boundary histories against the reference LRU; in-flight counter proxy on the Store (serialisation); exactly-once accounting over the eviction log; Size<=limit probes under the cache lock",
+         "Runs tens of thousands of short concurrent histories (2-4 goroutines, 3-5 shared keys, GOMAXPROCS 1/2/4/16, injected yields) and checks each for linearizability, serialised store access, exactly-once eviction reports after a final Clear and Size <= limit, plus stress rounds of 2-8 goroutines under the race detector with a concurrent observer. Held = no race report, no illegal history, no accounting discrepancy in the interleavings that were observed (their number is in the evidence).",
+         "Trusts porcupine v1.3.0, the Go race detector, and the reference LRU; says nothing about schedules the Go scheduler did not produce.",
+         "DESIGN.md §5 C09"),
  "C07": ("reference-model monitor (slice) after every operation; exhaustive short histories + scripted wrap/regrow scenarios + PRNG histories; internal-state reach counters via hook",
          "Runs the real queue.Queue against a slice reference and compares the full observable state (Len, IsEmpty, Front, Slice, Each, every Peek offset) after every single operation, over every history of bounded length for small preallocated sizes, scripted rotate-then-grow scenarios for every capacity 1..24 and head position, and tens of thousands of PRNG histories. Held = no divergence on the executions listed in the evidence file; nothing is proved beyond them.",
          "Trusts the slice reference model and the Go runtime. The VerifState hook feeds reach counters only.",
